@@ -438,9 +438,14 @@ class Check:
         self.failed_obligations = failed
         return failed
 
+    def has_new_concrete(self):
+        """a concrete failing input that is NOT a listed finding has been recorded in this run"""
+        return any(not no_input for (_k, _w, _r, no_input) in self.viol)
+
     def proof_broken(self, failed, found_concrete):
-        """protocol step 4 when an obligation no longer checks and the search found no concrete failing input"""
-        if failed and not found_concrete:
+        """protocol step 4 when an obligation no longer checks and the search found no concrete failing input.
+        Listed findings never count as the concrete input of a broken obligation: only a NEW violation does."""
+        if failed and not (found_concrete and self.has_new_concrete()):
             os.makedirs(REPLAYS, exist_ok=True)
             p = os.path.join(REPLAYS, "%s-proof-broken.txt" % self.prop)
             with open(p, "w") as f:
